@@ -11,8 +11,9 @@ def main() -> None:
     sys.path.insert(0, os.environ.get("DSIM_REPO", "/repo"))
     import logging
     logging.disable(logging.CRITICAL)
-    from dsim.worlds.values import describe
+    from dsim.worlds.values import describe, harvest, read_all
     from dsim.core.scenario import digest
+    fresh_cache: dict = {"dirs": None, "objs": {}}
     for line in sys.stdin:
         line = line.strip()
         if not line:
@@ -23,6 +24,16 @@ def main() -> None:
             twin = pickle.loads(bytes.fromhex(req["pickle"]))
             out = {"ok": True, "digest": digest(describe(obj)), "str": str(obj), "eq_self": bool(obj == obj), "eq_twin": bool(obj == twin),
                    "hash_twin": hash(obj) == hash(twin), "repickle": pickle.dumps(obj).hex(), "hashseed": os.environ.get("PYTHONHASHSEED")}
+            if req.get("dirs") and req.get("key"):
+                # an equal object built *here* (never hashed, never pickled, another hash seed): the unpickled object must be
+                # equal to it, hash like it and be found by it in a dict / set
+                if fresh_cache["dirs"] != req["dirs"]:
+                    fresh_cache["dirs"] = req["dirs"]
+                    fresh_cache["objs"] = dict(harvest(read_all(req["dirs"])))
+                fresh = fresh_cache["objs"].get(req["key"])
+                if fresh is not None:
+                    out["fresh"] = {"eq": bool(obj == fresh) and bool(fresh == obj), "hash": hash(obj) == hash(fresh),
+                                    "lookup": {fresh: 1}.get(obj) == 1 and (obj in {fresh}) and (fresh in {obj})}
         except Exception as ex:  # reported to the worker, which decides
             out = {"ok": False, "error": "%s: %s" % (type(ex).__name__, ex)}
         sys.stdout.write(json.dumps(out) + "\n")
